@@ -173,6 +173,11 @@ def hostile_groups(rng):
                     for plen in (1200, 1):
                         out.append([("nmismatch", W.slice_packet(rel, 11, ch, mid, 0, n1, fill(1200))),
                                     ("nmismatch", W.slice_packet(rel, 12, ch, mid, 1, n2, fill(plen)))])
+                # a reassembly is open with n1 slices; a further slice of the same message announces MORE slices and carries an index that
+                # is fine for its own count but not for the open reassembly (at, just past, far past its end)
+                for n1, n2, idx in ((2, 3, 2), (2, 10, 5), (2, 10, 2), (3, 4, 3), (1, 2, 1), (2, 1000, 999), (5, 6, 5)):
+                    out.append([("idxmismatch", W.slice_packet(rel, 11, ch, mid, 0, n1, fill(1200))),
+                                ("idxmismatch", W.slice_packet(rel, 12, ch, mid, idx, n2, fill(1200 if idx < n2 - 1 else 7)))])
                 # the same slice twice, then the rest; completion followed by stale duplicates
                 out.append([("dupslice", W.slice_packet(rel, 11, ch, mid, 0, 2, fill(1200))),
                             ("dupslice", W.slice_packet(rel, 12, ch, mid, 0, 2, fill(1200))),
